@@ -753,8 +753,11 @@ def set_trickery_enabled(enabled: Optional[bool]) -> None:
 
 def _check_trickery_available() -> bool:
     global _can_use_trickery
-    if _can_use_trickery is not None:
-        return _can_use_trickery
+    # (read the global once: set_trickery_enabled(None) on another thread
+    # may land between a test and a second read)
+    enabled = _can_use_trickery
+    if enabled is not None:
+        return enabled
     with _trickery_lock:
         if _can_use_trickery is not None:  # pragma: no cover
             return _can_use_trickery
